@@ -1,15 +1,130 @@
 package main
 
 import (
+	"flag"
 	"fmt"
-	"golang.org/x/tools/go/packages"
+	"os"
+	"path/filepath"
+	"runtime"
+	"sort"
+	"strings"
 )
 
-func main() {
-	cfg := &packages.Config{Mode: packages.NeedName | packages.NeedSyntax | packages.NeedTypes | packages.NeedTypesInfo | packages.NeedFiles | packages.NeedImports | packages.NeedDeps, Dir: "/repo", BuildFlags: []string{"-tags=verif"}}
-	pkgs, err := packages.Load(cfg, "./...")
-	fmt.Println(len(pkgs), err)
-	for _, p := range pkgs {
-		fmt.Println(p.PkgPath, len(p.Syntax), p.Errors)
+func usage() {
+	fmt.Fprintln(os.Stderr, `usage:
+  govc check <PROPERTY> [--tier quick|thorough]
+  govc func <key>...          verify the named functions, print obligations (debugging)
+  govc list                   list functions under contract
+  govc selftest               run the must-fail corpus`)
+	os.Exit(2)
+}
+
+func envOr(k, d string) string {
+	if v := os.Getenv(k); v != "" {
+		return v
 	}
+	return d
+}
+
+func newEngine(goos, goarch string) (*Engine, error) {
+	repo := envOr("GOVC_REPO", "/repo")
+	verif := envOr("GOVC_VERIF", "/verif")
+	e, err := LoadEngine(repo, verif, goos, goarch, []string{"verif"})
+	if err != nil {
+		return nil, err
+	}
+	if err := e.LoadContracts(); err != nil {
+		return nil, err
+	}
+	e.registerIfaceImpls()
+	e.forceSorts()
+	return e, nil
+}
+
+func main() {
+	if len(os.Args) < 2 {
+		usage()
+	}
+	switch os.Args[1] {
+	case "func":
+		cmdFunc(os.Args[2:])
+	case "list":
+		e, err := newEngine("", "")
+		if err != nil {
+			fmt.Fprintln(os.Stderr, err)
+			os.Exit(3)
+		}
+		for _, k := range sortedKeys(e.Contracts.Funcs) {
+			f := e.Contracts.Funcs[k]
+			fmt.Printf("%-60s extern=%v props=%v\n", k, f.Extern, f.Props)
+		}
+	case "check":
+		os.Exit(cmdCheck(os.Args[2:]))
+	case "selftest":
+		os.Exit(cmdSelftest(os.Args[2:]))
+	default:
+		usage()
+	}
+}
+
+func cmdFunc(args []string) {
+	fs := flag.NewFlagSet("func", flag.ExitOnError)
+	timeout := fs.Int("timeout", 10, "per-obligation timeout (s)")
+	keep := fs.String("keep", "", "directory to keep .smt2 files")
+	verbose := fs.Bool("v", false, "print every obligation")
+	fs.Parse(args)
+	e, err := newEngine("", "")
+	if err != nil {
+		fmt.Fprintln(os.Stderr, err)
+		os.Exit(3)
+	}
+	dir := *keep
+	if dir == "" {
+		dir, _ = os.MkdirTemp("", "govc")
+		defer os.RemoveAll(dir)
+	} else {
+		os.MkdirAll(dir, 0o755)
+	}
+	for _, key := range fs.Args() {
+		if e.Contracts.Funcs[key] == nil {
+			fmt.Printf("no contract for %s\n", key)
+			continue
+		}
+		res := e.VerifyFunc(key)
+		sv := &Solver{Dir: dir, Timeout: *timeout, Par: runtime.NumCPU(), Prelude: e.Prelude()}
+		sv.SolveAll(res.Obligations)
+		fmt.Printf("== %s: %d obligations, %d unsupported\n", key, len(res.Obligations), len(res.Unsupported))
+		for _, u := range res.Unsupported {
+			fmt.Printf("   UNSUPPORTED %s\n", u)
+		}
+		cnt := map[string]int{}
+		for _, o := range res.Obligations {
+			cnt[o.Status]++
+			if *verbose || o.Status == "failed" || o.Status == "vacuous" {
+				fmt.Printf("   %-10s %-70s %-8s %.2fs  [%s:%d] %s\n", o.Status, o.ID, o.Backend, o.Seconds, shortPath(o.Pos.Filename), o.Pos.Line, o.GoalText)
+				if o.Status == "failed" {
+					fmt.Printf("      path: %s\n", o.Path)
+					if *verbose {
+						fmt.Printf("      %s\n", firstLines(o.Output, 40))
+					}
+				}
+			}
+		}
+		var ks []string
+		for k := range cnt {
+			ks = append(ks, k)
+		}
+		sort.Strings(ks)
+		for _, k := range ks {
+			fmt.Printf("   %s=%d", k, cnt[k])
+		}
+		fmt.Println()
+	}
+}
+
+func relToVerif(p string) string {
+	if r, err := filepath.Rel("/verif", p); err == nil && !strings.HasPrefix(r, "..") {
+		return r
+	}
+	return p
 }
